@@ -393,6 +393,44 @@ func cmdStopFlush(f hx.Flags, r *hx.Result) {
 		}
 		log.VerifNow = nil
 	}
+	// targets that cannot be synced (a character device: fsync fails with EINVAL): Stop / Destroy must still release
+	// the descriptor, through a directly built appender and through the File logger kind
+	if _, err := os.Stat("/dev/null"); err == nil {
+		before := len(openUnder("/dev/null"))
+		fa := &log.FileAppender{Layout: &log.TextLayout{BaseLayout: log.BaseLayout{FileLineLength: 48}}, FileDir: "/dev", FileName: "null"}
+		desc := map[string]any{"target": "/dev/null (not syncable)", "kind": "File appender, direct Start/Stop"}
+		if ret, p := hx.Within(10*time.Second, func() {
+			if err := fa.Start(); err != nil {
+				panic(err)
+			}
+			fa.Write([]byte("x\n"))
+			fa.Stop()
+			fa.Stop()
+		}); !ret || p != nil {
+			r.Violate("blocked:unsyncable-target", desc, "Start/Write/Stop/Stop returned=%v panic=%v", ret, p)
+		} else if n := len(openUnder("/dev/null")); n != before {
+			r.Violate("fd-leak:unsyncable-target", desc, "%d descriptors on /dev/null before, %d after Stop", before, n)
+		}
+		log.Destroy()
+		log.VerifReset()
+		tag := log.RegisterTag("sf_null")
+		cfg := sys.Cfg{}
+		cfg.AddRec("unused")
+		cfg.AddLogger("lg", "File", "", "sf_null", nil, false, map[string]string{"fileDir": "/dev", "fileName": "null"})
+		cfg["appender.nul.type"] = "File"
+		cfg["appender.nul.fileDir"], cfg["appender.nul.fileName"] = "/dev", "null"
+		cfg.AddLogger("lg2", "Logger", "", "sf_null2", []sys.Ref{{Ref: "nul"}}, false, nil)
+		desc = map[string]any{"target": "/dev/null (not syncable)", "kind": "File logger and File appender via Refresh / Destroy"}
+		if err := log.Refresh(cfg.Map(nil)); err == nil {
+			log.Info(context.Background(), tag, log.Int("id", 1))
+			if ret, p := hx.Within(10*time.Second, func() { log.Destroy() }); !ret || p != nil {
+				r.Violate("blocked:unsyncable-target", desc, "Destroy returned=%v panic=%v", ret, p)
+			} else if n := len(openUnder("/dev/null")); n != before {
+				r.Violate("fd-leak:unsyncable-target", desc, "%d descriptors on /dev/null before Refresh, %d after Destroy", before, n)
+			}
+		}
+		r.Eval(2)
+	}
 	log.Destroy()
 	log.VerifReset()
 }
